@@ -384,6 +384,11 @@ func c12Pixels(r *hx.Rand, g c12Cfg) ([]int, []byte) {
 	return s, b
 }
 
+// c12Encode is how one evaluation obtains its stream: a fresh Encoder per image, or (family encoder-reuse,
+// c12_reuse.go) one long-lived Encoder object whose parameters are rewritten between calls
+var c12Encode = func(p *jpeg2000.EncodeParams, px []byte) ([]byte, error) { return jpeg2000.NewEncoder(p).Encode(px) }
+var c12History = ""
+
 var c12FailSeen = map[string]int{}
 var c12ClampSeen = map[string]bool{}
 
@@ -418,7 +423,10 @@ func c12One(c *hx.Ctx, g c12Cfg) {
 	p.CodeBlockWidth, p.CodeBlockHeight = g.CB, g.CB
 	var stream []byte
 	var err error
-	if pn, msg := hx.Guard(func() { stream, err = jpeg2000.NewEncoder(p).Encode(px) }); pn {
+	if c12History != "" {
+		in["history"] = c12History
+	}
+	if pn, msg := hx.Guard(func() { stream, err = c12Encode(p, px) }); pn {
 		c12Fail(c, hx.Failure{Class: "c12-encode-panic", What: "encoder panicked: " + msg, Input: in})
 		return
 	}
